@@ -172,6 +172,63 @@ def r62(ctx, fx, T, scope):
     ctx.floor(rid, 4, "labelled call sinks")
 
 
+STR_SLICE_OK = {
+    "mos_core::parser::code_map::File::find_line_col": (1, "byte column inside a line span; spans are parser positions, i.e. token boundaries, hence char boundaries"),
+    "mos_core::parser::code_map::File::source_slice": (1, "spans are parser positions (token boundaries); asserted to lie inside the file"),
+}
+
+
+def r68(ctx, fx, scope):
+    rid = ctx.rule("R6.8", "text of the program is never sliced at a computed byte offset (str::split_at, str/String range indexing) unless the offset is "
+                   "known to be a char boundary: dominated by `is_char_boundary` on the same offset, or tabled (offsets that are parser positions)")
+    from .c04 import dst_switch_true_succ
+    seen = {}
+    n = 0
+    for f in sorted(fx.all_fns(), key=lambda f: f.path):
+        if "::tests::" in f.path or f.id not in scope:
+            continue
+        du = None
+        for bi, t in lib.calls(f):
+            p, fr = lib.callee(t)
+            pn = lib.norm(p or "")
+            full = fr.get("full", "")
+            is_split = pn.endswith("str::split_at") or pn.endswith("str::split_at_mut")
+            is_index = ("Index" in pn and pn.endswith("index") and ("Range" in full) and
+                        ("<str as" in full or "<alloc::string::String as" in full or " for str>" in full))
+            if not (is_split or is_index):
+                continue
+            n += 1
+            seen[f.path] = seen.get(f.path, 0) + 1
+            key = "%s|str-slice#%d" % (f.path, seen[f.path])
+            if du is None:
+                du = lib.DefUse(f)
+            # the offset operand(s)
+            guarded = False
+            if is_split:
+                idx = t["args"][1]
+                for bj, t2 in lib.calls(f):
+                    if lib.norm(lib.callee(t2)[0] or "").endswith("str::is_char_boundary"):
+                        ts = dst_switch_true_succ(f, bj)
+                        same = lib.const_int(idx) is not None and lib.const_int(idx) == lib.const_int(t2["args"][1])
+                        if not same:
+                            a, b = lib.op_local(idx), lib.op_local(t2["args"][1])
+                            if a is not None and b is not None:
+                                oa, ob = du.single_def(a), du.single_def(b)
+                                same = a == b or (oa and ob and oa[2] == "assign" and ob[2] == "assign" and oa[3]["rv"] == ob[3]["rv"])
+                        if ts is not None and same and lib.dominates(f, ts, bi):
+                            guarded = True
+            ctx.inst(rid, key, sample={"fn": f.path, "call": pn.rsplit("::", 2)[-2] + "::" + pn.rsplit("::", 1)[-1], "line": t.get("line"), "guarded": guarded})
+            if guarded:
+                continue
+            ok = STR_SLICE_OK.get(f.path)
+            if ok and seen[f.path] <= ok[0]:
+                continue
+            ctx.finding(rid, key, "%s slices text at a computed byte offset (line %s): when the offset falls inside a multi-byte character the process panics "
+                        "(`not a char boundary`)" % (f.path, t.get("line")), "%s:%s" % (f.file, t.get("line")))
+    if n < 3:
+        ctx.fail_closed(rid, "fewer than 3 string-slicing sites found in scope (%d)" % n)
+
+
 def r63(ctx, fx):
     rid = ctx.rule("R6.3", "no unwrap/expect on the result of from_str_radix / str::parse applied to text captured by the parser")
     n = 0
@@ -336,6 +393,7 @@ def run(ctx):
     ctx.extra["scope_functions"] = len(scope)
     r61(ctx, fx, T, scope)
     r62(ctx, fx, T, scope)
+    r68(ctx, fx, scope)
     r63(ctx, fx)
     r64(ctx, fx)
     r65(ctx, fx)
